@@ -676,21 +676,21 @@ fn neighbour_locality(p: &mut ProbeReport, r: &mut Rng, rounds: usize) {
 /// one long-lived store driven through adds, limit changes and searches (empty and not): after every step the hits at
 /// the current limit must be the first `limit` entries of what the same store lists with an unlimited limit, and
 /// that list must hold every record that is a hit in a store of its own (distinct ratings, |store| <= 10*limit)
-fn lived_in_store(p: &mut ProbeReport, r: &mut Rng, rounds: usize) {
+fn lived_in_store(p: &mut ProbeReport, r: &mut Rng, rounds: usize, which: &str) {
     for it in 0..rounds {
         let code = LANGS[it % LANGS.len()];
         let v = vocab(code);
         let mut used: Vec<usize> = vec![];
         let mut fresh_rating = |r: &mut Rng| loop { let x = r.below(1000); if !used.contains(&x) { used.push(x); break x; } };
         let mut recs: Vec<(usize, String, usize)> = (0..r.range(2, 6)).map(|i| (i + 1, v.title(r), fresh_rating(r))).collect();
-        let mut limit = *r.pick(&[2usize, 3, 5, 10]);
+        let mut limit = *r.pick(&[2usize, 3, 10, 10]);
         let mut st = Scn { lang: code.to_string(), recs: recs.clone(), limit }.build();
         let mut ops: Vec<Op> = vec![Op::New, Op::Limit(limit)];
         for (id, t, rt) in &recs { ops.push(Op::Add(*id, *rt, t.clone())); }
         for step in 0..8 {
-            match r.below(4) {
+            match [0usize, 0, 0, 1, 1, 1, 1, 2, 2, 2, 3][r.below(11)] {
                 0 => { let id = 100 + step; let t = v.title(r); let rt = if r.chance(1, 2) { fresh_rating(r) / 100 } else { fresh_rating(r) }; if recs.iter().any(|e| e.2 == rt) { continue; } add_to(&mut st, id, &t, rt); recs.push((id, t.clone(), rt)); ops.push(Op::Add(id, rt, t)); }
-                1 => { limit = *r.pick(&[2usize, 3, 10, 10, 12]); st.limit = limit; ops.push(Op::Limit(limit)); }
+                1 => { limit = *r.pick(&[2usize, 3, 10, 10]); st.limit = limit; ops.push(Op::Limit(limit)); }
                 2 => { let _ = search_results(&st, ""); ops.push(Op::Search(String::new())); }
                 _ => { let t = r.pick(&recs).1.clone(); let q = query_for(&v, r, &t); let _ = search_results(&st, &q); ops.push(Op::Search(q)); }
             }
@@ -706,6 +706,21 @@ fn lived_in_store(p: &mut ProbeReport, r: &mut Rng, rounds: usize) {
                 p.eval(&format!("lived|{}|{}|{}|{}", code, it, step, q), !hits.is_empty());
                 let want: Vec<(usize, String)> = unl.iter().take(limit).cloned().collect();
                 let mut o = ops.clone(); o.push(Op::Search(q.clone()));
+                if which == "C12" {
+                    // empty query: exactly the `limit` best-rated records, best first (ratings are pairwise distinct)
+                    if !q.is_empty() { continue; }
+                    let mut by_rating = recs.clone(); by_rating.sort_by(|a, b| b.2.cmp(&a.2));
+                    let expect: Vec<usize> = by_rating.iter().take(limit).map(|e| e.0).collect();
+                    if ids(&hits) != expect { p.fail(format!("after these operations the empty query at limit {} lists {:?}; the {} best-rated records are {:?}", limit, ids(&hits), limit, expect), Case { name: "c12-lived".into(), lang: code.to_string(), stream: "probe", ops: o }); return; }
+                    continue;
+                }
+                if which == "C07" {
+                    // the same records inserted in another order into a new store give the same list
+                    let mut shuffled = recs.clone(); r.shuffle(&mut shuffled);
+                    let other = search_results(&Scn { lang: code.to_string(), recs: shuffled.clone(), limit }.build(), q);
+                    if hits != other { p.fail(format!("after these operations query {:?} lists {:?}; a store holding the same records inserted in the order {:?} lists {:?}", q, ids(&hits), shuffled.iter().map(|e| e.0).collect::<Vec<_>>(), ids(&other)), Case { name: "c07-lived".into(), lang: code.to_string(), stream: "probe", ops: o }); return; }
+                    continue;
+                }
                 if hits != want { p.fail(format!("after these operations limit {} gives {:?}, which is not the first {} of the unlimited list {:?} (query {:?})", limit, ids(&hits), limit, ids(&unl), q), Case { name: "c06-lived".into(), lang: code.to_string(), stream: "probe", ops: o }); return; }
                 for rec in &recs {
                     let alone = search_results(&Scn { lang: code.to_string(), recs: vec![rec.clone()], limit: 1 }.build(), q);
@@ -717,9 +732,66 @@ fn lived_in_store(p: &mut ProbeReport, r: &mut Rng, rounds: usize) {
     }
 }
 
+/// every sequence up to `maxlen` over {add a lowest-rated record, add a highest-rated record, limit 2, limit 5,
+/// search ""} applied to a three-record store, then the empty query once more: judged as `which` requires
+fn lived_in_exhaustive(p: &mut ProbeReport, which: &str, maxlen: usize) {
+    let titles = ["red mug", "blue mug", "green cup", "mug rack", "tea cup", "big mug", "cup", "mugs", "a mug"];
+    let mut idx: Vec<usize> = vec![];
+    let mut total = 0usize;
+    loop {
+        let mut k = idx.len();
+        loop { if k == 0 { idx = vec![0; idx.len() + 1]; break; } k -= 1; if idx[k] + 1 < 5 { idx[k] += 1; for j in k + 1..idx.len() { idx[j] = 0; } break; } }
+        if idx.len() > maxlen { break; }
+        if !idx.iter().any(|a| *a <= 1) { continue; }
+        total += 1;
+        let mut recs: Vec<(usize, String, usize)> = vec![(1, titles[0].into(), 500), (2, titles[1].into(), 400), (3, titles[2].into(), 300)];
+        let mut limit = 5usize;
+        let mut st = Scn { lang: "none".into(), recs: recs.clone(), limit }.build();
+        let mut ops: Vec<Op> = vec![Op::New, Op::Limit(limit)];
+        for (id, t, rt) in &recs { ops.push(Op::Add(*id, *rt, t.clone())); }
+        let (mut lo, mut hi) = (200usize, 600usize);
+        for a in &idx {
+            match a {
+                0 | 1 => { let rt = if *a == 0 { lo -= 10; lo } else { hi += 10; hi }; let id = recs.len() + 1; let t = titles[id % titles.len()].to_string(); add_to(&mut st, id, &t, rt); recs.push((id, t.clone(), rt)); ops.push(Op::Add(id, rt, t)); }
+                2 | 3 => { limit = if *a == 2 { 2 } else { 5 }; st.limit = limit; ops.push(Op::Limit(limit)); }
+                _ => { let _ = search_results(&st, ""); ops.push(Op::Search(String::new())); }
+            }
+        }
+        for q in ["", "mug"] {
+            let hits = search_results(&st, q);
+            p.eval(&format!("livedx|{:?}|{}", idx, q), true);
+            let mut o = ops.clone(); o.push(Op::Search(q.to_string()));
+            let case = Case { name: format!("{}-lived-exhaustive", which.to_lowercase()), lang: "none".into(), stream: "probe", ops: o };
+            let what = match which {
+                "C12" => {
+                    if !q.is_empty() { None } else {
+                        let mut by = recs.clone(); by.sort_by(|a, b| b.2.cmp(&a.2));
+                        let expect: Vec<usize> = by.iter().take(limit).map(|e| e.0).collect();
+                        if ids(&hits) != expect { Some(format!("the empty query at limit {} lists {:?}; the {} best-rated records are {:?}", limit, ids(&hits), limit, expect)) } else { None }
+                    }
+                }
+                "C07" => {
+                    let mut rev = recs.clone(); rev.reverse();
+                    let other = search_results(&Scn { lang: "none".into(), recs: rev, limit }.build(), q);
+                    if hits != other { Some(format!("query {:?} lists {:?}; a store holding the same records inserted in reverse order lists {:?}", q, ids(&hits), ids(&other))) } else { None }
+                }
+                _ => {
+                    st.limit = 1000; let unl = search_results(&st, q); st.limit = limit;
+                    let want: Vec<(usize, String)> = unl.iter().take(limit).cloned().collect();
+                    if hits != want { Some(format!("limit {} gives {:?}, not the first {} of the unlimited list {:?} (query {:?})", limit, ids(&hits), limit, ids(&unl), q)) }
+                    else { recs.iter().find(|rec| { let alone = search_results(&Scn { lang: "none".into(), recs: vec![(*rec).clone()], limit: 1 }.build(), q); alone.len() == 1 && !unl.iter().any(|h| h.0 == rec.0) }).map(|rec| format!("record {} {:?} is a hit on its own for {:?} but missing from the unlimited list {:?}", rec.0, rec.1, q, ids(&unl))) }
+                }
+            };
+            if let Some(w) = what { p.fail(format!("after the operation sequence {}", w), case); if p.failures.len() >= 3 { return; } }
+        }
+    }
+    p.notes.insert("lived_in_exhaustive_sequences".into(), total);
+}
+
 fn p06(p: &mut ProbeReport, r: &mut Rng, budget: usize) {
     compaction_stress(p, r, "C06", if budget > 5000 { 12 } else { 2 });
-    lived_in_store(p, r, if budget > 5000 { 8000 } else { 800 });
+    lived_in_exhaustive(p, "C06", if budget > 5000 { 7 } else { 6 });
+    lived_in_store(p, r, if budget > 5000 { 8000 } else { 800 }, "C06");
     neighbour_locality(p, r, if budget > 5000 { 6000 } else { 700 });
     let budget = budget + p.evaluations;
     let mut i = 0;
@@ -765,6 +837,8 @@ fn p06(p: &mut ProbeReport, r: &mut Rng, budget: usize) {
 // ---------------- C07: consistent order, independent of other records and insert order ----------------
 fn p07(p: &mut ProbeReport, r: &mut Rng, budget: usize) {
     compaction_stress(p, r, "C07", if budget > 5000 { 12 } else { 2 });
+    lived_in_exhaustive(p, "C07", if budget > 5000 { 7 } else { 6 });
+    lived_in_store(p, r, if budget > 5000 { 6000 } else { 600 }, "C07");
     let budget = budget + p.evaluations;
     let mut i = 0;
     while p.evaluations < budget {
@@ -1167,6 +1241,9 @@ fn p11(p: &mut ProbeReport, r: &mut Rng, budget: usize) {
 
 // ---------------- C12: empty query lists the top-rated records ----------------
 fn p12(p: &mut ProbeReport, r: &mut Rng, budget: usize) {
+    lived_in_exhaustive(p, "C12", if budget > 5000 { 7 } else { 6 });
+    lived_in_store(p, r, if budget > 5000 { 6000 } else { 600 }, "C12");
+    let budget = budget + p.evaluations;
     let mut i = 0;
     while p.evaluations < budget {
         let code = LANGS[i % LANGS.len()]; i += 1;
@@ -1456,7 +1533,56 @@ fn p17(p: &mut ProbeReport, r: &mut Rng, budget: usize) {
 }
 
 // ---------------- C18: trigram index ----------------
+/// the whole statement of C18 for one `prepare` call on a store holding `recs`; false after the first failure
+fn check_prepare(p: &mut ProbeReport, st: &Store, lang: &core::Lang, code: &str, recs: &[(usize, String, usize)], q: &str, size: usize, history: &[Op]) -> bool {
+    let n = recs.len();
+    let rgrams: Vec<BTreeSet<[char; 3]>> = recs.iter().map(|e| grams_of(&tokenize_record(&e.1, lang))).collect();
+    let tq = tokenize_query(q, lang);
+    let got = st.index.borrow_mut().prepare(&tq.to_ref(), size);
+    let qg = grams_of(&tq);
+    let counts: Vec<usize> = rgrams.iter().map(|g| g.intersection(&qg).count()).collect();
+    let positive = counts.iter().filter(|c| **c > 0).count();
+    p.eval(&format!("inc|{}|{}|{}|{}", code, n, size, q), positive > 0);
+    let mut ops = history.to_vec(); ops.push(Op::Prepare(q.to_string(), size));
+    let case = Case { name: "c18-incremental".into(), lang: code.to_string(), stream: "probe", ops };
+    if tq.words.is_empty() { if !got.is_empty() { p.fail("candidates for a query without words".into(), case); return false; } return true; }
+    let set: BTreeSet<usize> = got.iter().cloned().collect();
+    let what = if set.len() != got.len() { Some(format!("duplicate positions {:?}", got)) }
+        else if got.iter().any(|ix| *ix >= n || counts[*ix] == 0) { Some(format!("position out of range or sharing no gram: {:?} counts {:?}", got, counts)) }
+        else if got.len() != positive.min(10 * size) { Some(format!("{} candidates {:?}, expected min(records sharing a gram {}, 10*size {})", got.len(), got, positive, 10 * size)) }
+        else if got.windows(2).any(|w| counts[w[0]] < counts[w[1]]) { Some(format!("shared-gram counts increase along the list {:?}", got.iter().map(|ix| counts[*ix]).collect::<Vec<_>>())) }
+        else if got.iter().map(|ix| counts[*ix]).min().map(|minc| (0..n).any(|ix| !set.contains(&ix) && counts[ix] > minc)).unwrap_or(false) { Some("an omitted record shares more grams than a listed one".to_string()) }
+        else { None };
+    match what { Some(w) => { p.fail(format!("{} (query {:?}, size {}, after {} adds)", w, q, size, n), case); false } None => true }
+}
+
 fn p18(p: &mut ProbeReport, r: &mut Rng, budget: usize) {
+    // incremental: the same few queries are prepared again after every add (also adds whose words start with letters
+    // no earlier word starts with, also into an empty store) and after clear
+    for round in 0..(if budget > 5000 { 400 } else { 60 }) {
+        let code = LANGS[round % LANGS.len()];
+        let v = vocab(code);
+        let lang = make_lang(code);
+        let planned: Vec<String> = (0..r.range(3, 9)).map(|k| if k % 2 == 0 { v.title(r) } else { let l = *r.pick(&v.letters); format!("{}{} {}", l, v.word(r), v.word(r)) }).collect();
+        let queries: Vec<(String, usize)> = (0..3).map(|_| { let t = r.pick(&planned).clone(); (query_for(&v, r, &t), *r.pick(&[1usize, 2, 10])) }).collect();
+        let mut st = new_store(code, 10);
+        let mut recs: Vec<(usize, String, usize)> = vec![];
+        let mut hist: Vec<Op> = vec![Op::New];
+        let mut ok = true;
+        for (q, size) in &queries { ok = ok && check_prepare(p, &st, &lang, code, &recs, q, *size, &hist); hist.push(Op::Prepare(q.clone(), *size)); }
+        for (k, t) in planned.iter().enumerate() {
+            if !ok { break; }
+            if k == 4 && r.chance(1, 3) { st.clear(); recs.clear(); hist.push(Op::Clear); }
+            // the same query immediately before and immediately after the add (nothing in between)
+            let (qk, sk) = &queries[k % queries.len()];
+            ok = ok && check_prepare(p, &st, &lang, code, &recs, qk, *sk, &hist); hist.push(Op::Prepare(qk.clone(), *sk));
+            add_to(&mut st, k + 1, t, 10 + k); recs.push((k + 1, t.clone(), 10 + k)); hist.push(Op::Add(k + 1, 10 + k, t.clone()));
+            ok = ok && check_prepare(p, &st, &lang, code, &recs, qk, *sk, &hist); hist.push(Op::Prepare(qk.clone(), *sk));
+            for (q, size) in &queries { ok = ok && check_prepare(p, &st, &lang, code, &recs, q, *size, &hist); hist.push(Op::Prepare(q.clone(), *size)); }
+        }
+        if !ok { return; }
+    }
+    let budget = budget + p.evaluations;
     let mut i = 0;
     while p.evaluations < budget {
         let code = LANGS[i % LANGS.len()]; i += 1;
